@@ -400,6 +400,16 @@ class Interp:
             if ce is not None and ce['k'] == 'CXXDependentScopeMemberExpr' and ce.get('member') and ce.get('c'):
                 n2 = dict(n, k='CXXMemberCallExpr', cs='<dependent>::' + ce['member'], callee='<dependent>::' + ce['member'], obj=ce['c'][0], _redispatched=True)
                 return self.call_node(fn, n2, env)
+        if callee is None and k == 'CallExpr' and 'calleeexpr' in n:
+            # a call of an overloaded free function inside a template pattern (resolved only at instantiation): accepted when the repository
+            # has exactly one definition of that name with this number of parameters in the namespace of the enclosing function
+            ce = S[n['calleeexpr']]
+            if ce.get('k') == 'UnresolvedLookupExpr' and ce.get('name'):
+                ns_ = fn.name.split('::lambda@')[0].rsplit('::', 1)[0]
+                cands = [g for g in self.db.functions if g.body >= 0 and not g.rec.get('dependent') and g.name.split('::')[-1] == ce['name']
+                         and len(g.rec.get('params', [])) == len(n.get('args', [])) and (g.name.rsplit('::', 1)[0] == ns_ or ns_.startswith(g.name.rsplit('::', 1)[0]))]
+                if len(cands) == 1:
+                    return self.call(cands[0], [self.eval(fn, S[a_], env) for a_ in n.get('args', [])], None)
         raise OutOfFragment('call to %s at %s' % (callee, fn.loc(n)))
 
     def std_model(self, fn, n, env):
